@@ -5,6 +5,145 @@ use crate::dice;
 use crate::ev::{Evidence, Findings, Tier, Violation};
 use proptest::test_runner::{TestCaseError, TestError};
 use std::cell::{Cell, RefCell};
+use std::sync::{Arc, Mutex};
+use std::time::{Duration, Instant};
+
+/// what a thread is evaluating right now (for the hang watchdog)
+#[derive(Default)]
+pub struct Slot {
+    since: Option<Instant>,
+    id: String,
+    origin: String,
+    note: String,
+}
+
+thread_local! {
+    static SLOT: RefCell<Option<Arc<Mutex<Slot>>>> = const { RefCell::new(None) };
+}
+static REGISTRY: Mutex<Vec<Arc<Mutex<Slot>>>> = Mutex::new(Vec::new());
+static WATCHDOG: std::sync::Once = std::sync::Once::new();
+
+pub struct CaseGuard(Option<Arc<Mutex<Slot>>>);
+impl Drop for CaseGuard {
+    fn drop(&mut self) {
+        if let Some(s) = &self.0 {
+            if let Ok(mut g) = s.lock() {
+                g.since = None;
+            }
+        }
+    }
+}
+
+/// Oracles that evaluate lelwel on a text open a case first, so that an evaluation which never
+/// returns can be noticed (by a process-wide watchdog thread) and named. Nested guards (an
+/// oracle calling another) keep the outermost start time.
+pub fn case_guard(id: &str, origin: &str, text: &str) -> CaseGuard {
+    if std::env::var("VERIF_NO_WATCHDOG").is_ok() {
+        return CaseGuard(None);
+    }
+    let slot = SLOT.with(|s| {
+        let mut b = s.borrow_mut();
+        if b.is_none() {
+            let a = Arc::new(Mutex::new(Slot::default()));
+            if let Ok(mut r) = REGISTRY.lock() {
+                r.push(a.clone());
+            }
+            *b = Some(a);
+        }
+        b.clone().unwrap()
+    });
+    WATCHDOG.call_once(|| {
+        std::thread::spawn(|| {
+            let limit = hang_limit();
+            loop {
+                std::thread::sleep(Duration::from_millis(500));
+                let slots: Vec<Arc<Mutex<Slot>>> = REGISTRY.lock().map(|r| r.clone()).unwrap_or_default();
+                for sl in slots {
+                    let hit = match sl.lock() {
+                        Ok(g) if g.since.is_some_and(|t| t.elapsed().as_secs() >= limit) => Some((g.id.clone(), g.origin.clone(), g.note.clone())),
+                        _ => None,
+                    };
+                    if let Some((id, origin, note)) = hit {
+                        hang_found(&id, &origin, &note, limit);
+                    }
+                }
+            }
+        });
+    });
+    let mut nested = false;
+    if let Ok(mut g) = slot.lock() {
+        if g.since.is_some() {
+            nested = true;
+        } else {
+            g.since = Some(Instant::now());
+            g.id = id.to_string();
+            g.origin = origin.to_string();
+            g.note.clear();
+            g.note.push_str(text);
+        }
+    }
+    if nested { CaseGuard(None) } else { CaseGuard(Some(slot)) }
+}
+
+/// seconds after which a single case (normally micro- to milliseconds) counts as not returning
+pub fn hang_limit() -> u64 {
+    std::env::var("VERIF_HANG_S").ok().and_then(|s| s.parse().ok()).unwrap_or(40)
+}
+
+/// Run `f` on its own thread; None if it has not returned after `secs` (the thread is leaked).
+pub fn with_deadline<T: Send + 'static>(secs: u64, f: impl FnOnce() -> T + Send + 'static) -> Option<T> {
+    let (tx, rx) = std::sync::mpsc::channel();
+    std::thread::Builder::new()
+        .stack_size(64 << 20)
+        .spawn(move || {
+            let _ = tx.send(f());
+        })
+        .ok()?;
+    rx.recv_timeout(Duration::from_secs(secs)).ok()
+}
+
+/// A case has been running for longer than the limit. A wall-clock observation is no verdict:
+/// the text is written as a replay file and re-evaluated in a fresh process (whose replay path
+/// applies the same deadline and reports through the ordinary VIOLATION line). Only if the
+/// fresh process also fails to return is it reported; if it returns normally the run is
+/// inconclusive (exit 2).
+fn hang_found(id: &str, stage: &str, note: &str, secs: u64) -> ! {
+    if note.is_empty() {
+        eprintln!("inconclusive: a case of stage {stage} has been running for more than {secs} s (no replayable text recorded)");
+        std::process::exit(2);
+    }
+    let dir = crate::ev::root().join("replays").join("new");
+    let _ = std::fs::create_dir_all(&dir);
+    let body = serde_json::to_string_pretty(&serde_json::json!({"property": id, "signature": "no-return", "what": format!("a case of stage {stage} did not return within {secs} s"), "replay": {"text": note, "origin": format!("watchdog:{stage}")}})).unwrap();
+    let path = dir.join(format!("{id}-{:016x}.json", crate::ev::hash64(&body)));
+    let _ = std::fs::write(&path, body);
+    let exe = std::env::current_exe().unwrap();
+    let child = std::process::Command::new(exe).arg(id).arg("--replay").arg(&path).spawn();
+    let Ok(mut child) = child else {
+        eprintln!("inconclusive: a case did not return within {secs} s and the confirmation process could not be started");
+        std::process::exit(2);
+    };
+    let t0 = Instant::now();
+    loop {
+        match child.try_wait() {
+            Ok(Some(st)) => {
+                if st.code() == Some(1) {
+                    // the fresh process has printed the VIOLATION line
+                    std::process::exit(1);
+                }
+                eprintln!("inconclusive: a case did not return within {secs} s here but does in a fresh process ({st})");
+                std::process::exit(2);
+            }
+            Ok(None) if t0.elapsed().as_secs() > 4 * secs + 60 => {
+                let _ = child.kill();
+                eprintln!("inconclusive: the confirmation process itself did not return");
+                std::process::exit(2);
+            }
+            Ok(None) => std::thread::sleep(Duration::from_millis(200)),
+            Err(_) => std::process::exit(2),
+        }
+    }
+}
 
 pub struct PropOut {
     pub ev: Evidence,
